@@ -244,6 +244,88 @@ pub fn drive_fnnames() -> Vec<String> {
     fails
 }
 
+// ------------------------------------------------------------------------------------------------ operation, undo, redo, undo against a full dump (C01, C02)
+fn dump_state(m: &UserModel) -> String {
+    let mut s = String::new();
+    let props = m.get_worksheets_properties();
+    s += &format!("{props:?}\n{:?}\n", m.get_defined_name_list());
+    for (i, _p) in props.iter().enumerate() {
+        let i = i as u32;
+        for r in 1..=12 { for c in 1..=8 {
+            let t = m.get_cell_content(i, r, c).unwrap_or_default();
+            let v = m.get_formatted_cell_value(i, r, c).unwrap_or_default();
+            let st = m.get_cell_style(i, r, c).map(|x| format!("{x:?}")).unwrap_or_default();
+            if !t.is_empty() || !v.is_empty() || !st.contains("num_fmt: \"general\", fill: Fill { color: None }, font: Font { strike: false, u: false, b: false, i: false, sz: 12, color: None") {
+                s += &format!("{i}:{r}:{c} {t} = {v} {}\n", if st.len() > 0 { &st[..st.len().min(120)] } else { "" });
+            }
+        } }
+        for c in 1..=8 { s += &format!("w{c}={:?} ", m.get_column_width(i, c)); }
+        for r in 1..=12 { s += &format!("h{r}={:?} ", m.get_row_height(i, r)); }
+        s += &format!("\nfrozen {:?} {:?} grid {:?}\n", m.get_frozen_rows_count(i), m.get_frozen_columns_count(i), m.get_show_grid_lines(i));
+        let ws = m.get_model().workbook.worksheet(i).unwrap();
+        let mut links: Vec<String> = ws.links.iter().map(|(k, v)| format!("{k:?}{v:?}")).collect(); links.sort();
+        let mut hidden = vec![]; for r in 1..=12 { if ws.is_row_hidden(r).unwrap() { hidden.push(r); } } for c in 1..=8 { if ws.is_column_hidden(c).unwrap() { hidden.push(100 + c); } }
+        s += &format!("links {links:?} hidden {hidden:?} merged {:?} cf {}\n", ws.merge_cells, ws.conditional_formatting.len());
+    }
+    s
+}
+pub fn drive_undoall() -> Vec<String> {
+    use crate::expressions::types::Area;
+    let mut fails: Vec<String> = vec![];
+    let make = || {
+    let mut m = UserModel::new_empty("m", "en", "UTC", "en").unwrap();
+        m.new_sheet().unwrap();
+        for r in 1..=5 { m.set_user_input(0, r, 1, &format!("{r}")).unwrap(); m.set_user_input(0, r, 2, &format!("=A{r}*2+Sheet2!A1")).unwrap(); }
+        m.set_user_input(1, 1, 1, "100").unwrap();
+        m.set_user_input(0, 7, 1, "https://example.com").unwrap();
+        m.set_user_input(0, 8, 1, "=SEQUENCE(2,2)").unwrap();
+        m.new_defined_name("g", None, "Sheet1!$A$1:$A$5").unwrap();
+        m.new_defined_name("l", Some(1), "Sheet2!$A$1").unwrap();
+        m.set_user_input(0, 6, 3, "=SUM(g)").unwrap();
+        m.set_user_input(1, 2, 1, "=l*2").unwrap();
+    m
+    };
+    type Op = Box<dyn Fn(&mut UserModel) -> Result<(), String>>;
+    let ops: Vec<(&str, Op)> = vec![
+        ("insert_rows", Box::new(|m| m.insert_rows(0, 2, 2))), ("delete_rows", Box::new(|m| m.delete_rows(0, 2, 2))),
+        ("insert_columns", Box::new(|m| m.insert_columns(0, 1, 1))), ("delete_columns", Box::new(|m| m.delete_columns(0, 1, 1))),
+        ("delete_columns B", Box::new(|m| m.delete_columns(0, 2, 1))),
+        ("move_rows", Box::new(|m| m.move_rows_action(0, 1, 1, 3))), ("move_columns", Box::new(|m| m.move_columns_action(0, 1, 1, 1))),
+        ("rename_sheet", Box::new(|m| m.rename_sheet(1, "Data sheet"))), ("delete_sheet 2", Box::new(|m| m.delete_sheet(1))), ("delete_sheet 1", Box::new(|m| m.delete_sheet(0))),
+        ("duplicate_sheet", Box::new(|m| m.duplicate_sheet(0))), ("move_sheet", Box::new(|m| m.move_sheet(0, 1))), ("hide_sheet", Box::new(|m| m.hide_sheet(1))),
+        ("range_clear_all", Box::new(|m| m.range_clear_all(&Area { sheet: 0, row: 1, column: 1, width: 2, height: 2 }))), ("range_clear_contents", Box::new(|m| m.range_clear_contents(&Area { sheet: 0, row: 1, column: 1, width: 2, height: 2 }))),
+        ("update_range_style", Box::new(|m| m.update_range_style(&Area { sheet: 0, row: 1, column: 1, width: 2, height: 2 }, "font.b", "true"))),
+        ("set widths", Box::new(|m| m.set_columns_width(0, 2, 3, 50.0))), ("set heights", Box::new(|m| m.set_rows_height(0, 2, 3, 50.0))),
+        ("hide rows", Box::new(|m| m.set_rows_hidden(0, 2, 3, true))), ("hide cols", Box::new(|m| m.set_columns_hidden(0, 2, 2, true))),
+        ("frozen", Box::new(|m| m.set_frozen_rows_count(0, 2))), ("type over spill", Box::new(|m| m.set_user_input(0, 9, 2, "x"))), ("type over anchor", Box::new(|m| m.set_user_input(0, 8, 1, "y"))),
+        ("type over link", Box::new(|m| m.set_user_input(0, 7, 1, "plain"))), ("update name", Box::new(|m| m.update_defined_name("g", None, "h", None, "Sheet1!$A$2"))),
+        ("rescope name", Box::new(|m| m.update_defined_name("l", Some(1), "l", None, "Sheet2!$A$1"))), ("delete name", Box::new(|m| m.delete_defined_name("g", None))),
+        ("autofill rows", Box::new(|m| m.auto_fill_rows(&Area { sheet: 0, row: 1, column: 1, width: 2, height: 2 }, 10))),
+        ("autofill cols", Box::new(|m| m.auto_fill_columns(&Area { sheet: 0, row: 1, column: 1, width: 2, height: 2 }, 6))),
+        ("set_user_array_formula", Box::new(|m| m.set_user_array_formula(0, 10, 4, 2, 2, "=A1:B2*2"))),
+        ("locale", Box::new(|m| m.set_locale("de"))),
+    ];
+    for (name, op) in ops.iter() {
+        let mut m = make();
+        let before = dump_state(&m);
+        if let Err(e) = op(&mut m) { let _ = e; if dump_state(&m) != before { fails.push(format!("{name}: the operation failed and changed the state")); } continue; }
+        let after = dump_state(&m);
+        if let Err(e) = m.undo() { fails.push(format!("{name}: undo failed: {e}")); continue; }
+        let undone = dump_state(&m);
+        if undone != before {
+            let (a, b): (Vec<&str>, Vec<&str>) = (before.lines().collect(), undone.lines().collect());
+            let d: Vec<String> = a.iter().zip(b.iter()).filter(|(x, y)| x != y).take(1).map(|(x, y)| format!("{} -> {}", &x[..x.len().min(70)], &y[..y.len().min(70)])).collect();
+            fails.push(format!("{name}: the state after undo differs from the state before the operation ({})", d.join(" ")));
+            continue;
+        }
+        if let Err(e) = m.redo() { fails.push(format!("{name}: redo failed: {e}")); continue; }
+        if dump_state(&m) != after { fails.push(format!("{name}: the state after redo differs from the state after the operation")); }
+        let _ = m.undo();
+        if dump_state(&m) != before { fails.push(format!("{name}: the state after the second undo differs")); }
+    }
+    fails
+}
+
 // ------------------------------------------------------------------------------------------------ displayed content re-entered (C18, C19)
 // a grid of typed texts in five language/locale pairs: what the editor shows for the cell, typed back into it, leaves type, value, format and content alone
 pub fn drive_entry() -> Vec<String> {
@@ -699,6 +781,7 @@ pub fn run(driver: &str) -> Vec<String> {
         "fnnames" => drive_fnnames(),
         "parens" => drive_parens(),
         "entry" => drive_entry(),
+        "undoall" => drive_undoall(),
         "refshift" => drive_refshift(),
         "finite" => drive_finite(),
         "atomic" => drive_atomic(),
